@@ -115,7 +115,7 @@ func TestHandshake(t *testing.T) {
 			name:       name,
 			valid:      [][]byte{pbench.Cat(pbench.Frame(goodSyn), pbench.Frame(goodAck))},
 			structured: ackVariants(),
-			drive: func(b []byte) error {
+			drive: func(b []byte, step stepFn) error {
 				_, err := newSvc(withPicker).Handle(context.Background(), pbench.NewStream(b), info2.Addrs[0], info2.ID)
 				return err
 			},
@@ -136,7 +136,7 @@ func TestHandshake(t *testing.T) {
 	addSA("synack-syn-empty", &verifx.SynAck{Syn: &verifx.Syn{}, Ack: goodAck})
 	addSA("synack-syn-underlay-no-p2p", &verifx.SynAck{Syn: &verifx.Syn{ObservedUnderlay: mustMA("/ip4/1.2.3.4/tcp/9")}, Ack: goodAck})
 	for _, nb := range pbench.Addrs(gen) {
-			name, a := nb.Name, nb.B
+		name, a := nb.Name, nb.B
 		addSA("synack-syn-underlay-"+name, &verifx.SynAck{Syn: &verifx.Syn{ObservedUnderlay: a}, Ack: goodAck})
 		addSA("synack-overlay-"+name, &verifx.SynAck{Syn: goodSyn, Ack: &verifx.Ack{Address: &verifx.BzzAddress{Underlay: m2b, Overlay: a, Signature: peer.Addr.Signature}, NetworkID: networkID, NodeMode: full.Bv.Bytes()}})
 		addSA("synack-signature-"+name, &verifx.SynAck{Syn: goodSyn, Ack: &verifx.Ack{Address: &verifx.BzzAddress{Underlay: m2b, Overlay: peer.Overlay.Bytes(), Signature: a}, NetworkID: networkID, NodeMode: full.Bv.Bytes()}})
@@ -146,7 +146,7 @@ func TestHandshake(t *testing.T) {
 		name:       "handshake.Handshake",
 		valid:      [][]byte{pbench.Frame(&verifx.SynAck{Syn: goodSyn, Ack: goodAck})},
 		structured: synacks,
-		drive: func(b []byte) error {
+		drive: func(b []byte, step stepFn) error {
 			_, err := newSvc(false).Handshake(context.Background(), pbench.NewStream(b), info2.Addrs[0], info2.ID)
 			return err
 		},
